@@ -1588,6 +1588,11 @@ static void emit_data(Obj *prog) {
     if (var->is_function || !var->is_definition)
       continue;
 
+    // A static local variable of a function that is not emitted is not
+    // emitted either; its initializer may refer to other such functions.
+    if (var->enclosing_fn && !var->enclosing_fn->is_live)
+      continue;
+
     if (var->is_static)
       println("  .local %s", var->name);
     else
